@@ -179,6 +179,9 @@ impl<'a> LTr<'a> {
 
     /// `for x in place[.. range].iter_mut() { body }`
     fn for_loop(&mut self, f: &ExprForLoop) -> R<()> {
+        if matches!(&*f.pat, Pat::Tuple(_)) {
+            return self.for_zip(f);
+        }
         let var = match &*f.pat {
             Pat::Ident(id) => id.ident.to_string(),
             _ => return Err("for pattern".into()),
@@ -236,3 +239,5 @@ impl<'a> LTr<'a> {
         self.write_back(wb, nb)
     }
 }
+
+include!("t6l2.rs");
